@@ -236,6 +236,11 @@ class Interp:
         ok = (ast.Dict, ast.List, ast.Tuple, ast.Constant, ast.BinOp, ast.UnaryOp, ast.operator, ast.unaryop, ast.expr_context)
         if all(isinstance(n, ok) for n in ast.walk(node)):
             return eval(compile(ast.Expression(node), "<const>", "eval"), {"__builtins__": {}})  # noqa: S307
+        if mod.name == "eminus.data":
+            # pure data tables (element symbols, lattice constants): taken from the imported module of the tree under test
+            import importlib
+
+            return getattr(importlib.import_module("eminus.data"), name)
         return ExtRef(f"{mod.name.split('.')[-1]}.{name}")
 
     def get_attr(self, base, attr, env=None):
@@ -263,6 +268,11 @@ class Interp:
                 return v
             raise PyRaise("AttributeError", attr)
         if isinstance(base, ExtRef):
+            if base.name == "eminus" or base.name.startswith("eminus."):
+                try:
+                    return ModuleRef(self.w.module(f"{base.name}.{attr}"))
+                except FileNotFoundError:
+                    pass
             return ExtRef(f"{base.name}.{attr}")
         if isinstance(base, ModuleRef):
             return self.lookup_global(attr, base.module)
@@ -701,6 +711,10 @@ class Interp:
         return out
 
     def binop(self, op, l, r):
+        if op is ast.Mod and isinstance(l, str) and isinstance(r, tuple) and any(isinstance(x, Sym) for x in r):
+            from .symstr import percent_format
+
+            return percent_format(l, r)
         if hasattr(l, "z_binop"):
             res = l.z_binop(self, op, r, False)
             if res is not NotImplemented:
@@ -1370,6 +1384,10 @@ def _len(it, args, kwargs):
 
 def _int(it, args, kwargs):
     (v,) = args
+    if hasattr(v, "pieces"):
+        from .symstr import parse_number
+
+        return parse_number(v, "int")
     if isinstance(v, Sym):
         if v.kind == "int":
             return v
@@ -1381,6 +1399,10 @@ def _int(it, args, kwargs):
 
 def _float(it, args, kwargs):
     (v,) = args
+    if hasattr(v, "pieces"):
+        from .symstr import parse_number
+
+        return parse_number(v, "float")
     if isinstance(v, Sym):
         if v.kind == "real":
             return v
@@ -1414,6 +1436,14 @@ def _hasattr(it, args, kwargs):
     if isinstance(o, Obj):
         return it.has_attr(o, n)
     raise OutsideSubset("hasattr on non-object")
+
+
+def _setattr(it, args, kwargs):
+    o, n, v = args
+    if isinstance(n, str):
+        it.set_attr(o, n, v)
+        return None
+    raise OutsideSubset("setattr with a symbolic name")
 
 
 def _getattr(it, args, kwargs):
@@ -1511,7 +1541,7 @@ def _print(it, args, kwargs):
 _BUILTINS = {
     "isinstance": Builtin("isinstance", _isinstance), "len": Builtin("len", _len), "int": Builtin("int", _int),
     "float": Builtin("float", _float), "abs": Builtin("abs", _abs), "range": Builtin("range", _range),
-    "hasattr": Builtin("hasattr", _hasattr), "getattr": Builtin("getattr", _getattr),
+    "hasattr": Builtin("hasattr", _hasattr), "getattr": Builtin("getattr", _getattr), "setattr": Builtin("setattr", _setattr),
     "min": Builtin("min", _minmax("min")), "max": Builtin("max", _minmax("max")), "sum": Builtin("sum", _sum),
     "sorted": Builtin("sorted", _generic("sorted")), "set": Builtin("set", lambda it, a, k: (it.ext["set"](it, a, k) if "set" in it.ext else _generic("set")(it, a, k))),
     "str": Builtin("str", lambda it, a, k: (str(a[0]) if isinstance(a[0], (int, float, str, np.generic)) else __import__("pycv.wp.symstr", fromlist=["SStr"]).SStr([__import__("pycv.wp.symstr", fromlist=["Tok"]).Tok(a[0])]) if isinstance(a[0], Sym) else _generic("str")(it, a, k))), "bool": Builtin("bool", _generic("bool", "bool")),
